@@ -187,6 +187,18 @@ var catalogue = []mutation{
 		w.step.Command = string(r)
 		return true
 	}},
+	{"command-line-ending", true, func(t *rapid.T, w *world, _ *auxData) bool {
+		// CRLF <-> LF at one line break: a different command text (a shell sees the carriage return)
+		switch c := w.step.Command; {
+		case strings.Contains(c, "\r\n"):
+			w.step.Command = strings.Replace(c, "\r\n", "\n", 1)
+		case strings.Contains(c, "\n"):
+			w.step.Command = strings.Replace(c, "\n", "\r\n", 1)
+		default:
+			return false
+		}
+		return true
+	}},
 	// ---- step env
 	{"stepenv-add", true, func(t *rapid.T, w *world, _ *auxData) bool {
 		if w.step.Env == nil {
@@ -668,7 +680,7 @@ var catalogue = []mutation{
 	}},
 }
 
-var rec = ev.New("TestPropMutationsBreakVerification", "command steps built as structs (S command text, step env, plugins with nested configs from the documented source forms, matrices with adjustments and extras, unsigned label/key/cache/unknown fields), pipeline env, repository URL, key kind in {EdDSA, ES512, PS512, ES256 signer}; each case signs, checks the positive control (verification env = pipeline env + unrelated variables, public half only), applies ONE mutation from a catalogue of 42 semantic mutations (must fail) or 9 benign ones (must still verify); non-trivial = semantic mutation applied to a step with >= 1 plugin or matrix or step env; distinct by hash of (step, mutation, key kind)")
+var rec = ev.New("TestPropMutationsBreakVerification", "command steps built as structs (S command text, step env, plugins with nested configs from the documented source forms, matrices with adjustments and extras, unsigned label/key/cache/unknown fields), pipeline env, repository URL, key kind in {EdDSA, ES512, PS512, ES256 signer}; each case signs, checks the positive control (verification env = pipeline env + unrelated variables, public half only), applies ONE mutation from a catalogue of 43 semantic mutations (must fail) or 9 benign ones (must still verify); non-trivial = semantic mutation applied to a step with >= 1 plugin or matrix or step env; distinct by hash of (step, mutation, key kind)")
 
 func TestPropMutationsBreakVerification(t *testing.T) {
 	ctx := context.Background()
